@@ -33,6 +33,7 @@ type Options struct {
 	HBFast     bool
 	Mono       bool // monotonic log store flavour
 	CommitTrack bool // commit tracking flavour + RestoreCommittedLogs
+	CTEager     bool // the commit-tracking store persists a staged commit index at once (like InmemCommitTrackingStore)
 	BatchFSM   bool
 	CfgStoreFSM bool
 	BatchApplyCh bool
@@ -690,7 +691,7 @@ func (c *Cluster) Header() M {
 	}
 	c.mu.Unlock()
 	return M{"ev": "reset", "family": c.Opt.Family, "seed": c.Opt.Seed, "servers": c.Opt.Servers, "cfgtab": tab,
-		"params": M{"maxappend": c.Opt.MaxAppend, "trailing": c.Opt.Trailing, "mono": c.Opt.Mono, "ct": c.Opt.CommitTrack,
+		"params": M{"maxappend": c.Opt.MaxAppend, "trailing": c.Opt.Trailing, "mono": c.Opt.Mono, "ct": c.Opt.CommitTrack, "cteager": c.Opt.CTEager,
 			"hb_us": int64(c.Opt.Heartbeat / time.Microsecond), "el_us": int64(c.Opt.Election / time.Microsecond), "lease_us": int64(c.Opt.Lease / time.Microsecond),
 			"prevote": !c.Opt.PreVoteOff, "pvoff": sortedKeys(c.Opt.PreVoteOffNodes), "batchfsm": c.Opt.BatchFSM, "cfgstore": c.Opt.CfgStoreFSM,
 			"norestore": c.Opt.NoSnapRestoreOnStart, "leasecheck": c.Opt.LeaseCheck}}
